@@ -101,7 +101,7 @@ def run(res, args):
     if (lt.tm_hour == 23 and lt.tm_min >= 58) or (lt.tm_hour == 0 and lt.tm_min < 1):
         time.sleep(150)
     rng = common.rng_for(res.seed, "c16")
-    reps = 6 if res.tier == "quick" else 40
+    reps = 6 if res.tier == "quick" else 80
     sizes = [0, 1, 100, 8095, 8096, 8097, 20000, 100000]
     jobs = []
     for sz in sizes:
